@@ -22,6 +22,11 @@ for n in ast.walk(main):
             kw[k.arg] = ast.unparse(k.value)
         recv = ast.unparse(n.func.value)
         opts.append({'flags': flags, 'kwargs': kw, 'exclusive': groups.get(recv) == 'add_mutually_exclusive_group'})
-Path('/verif/spec/cli.json').write_text(json.dumps({'_source': 'penman/__main__.py main() at the pinned commit, checked against docs/command-line.rst', 'arguments': opts}, indent=1) + '\n')
+tables = {}
+for n in tree.body:
+    if isinstance(n, ast.Assign) and isinstance(n.targets[0], ast.Name) and n.targets[0].id in ('REARRANGE_KEYS', 'RECONFIGURE_KEYS'):
+        tables[n.targets[0].id] = ast.literal_eval(n.value)
+Path('/verif/spec/cli.json').write_text(json.dumps({'_source': 'penman/__main__.py main() at the pinned commit, checked against docs/command-line.rst',
+                                                     'arguments': opts, 'key_tables': tables}, indent=1) + '\n')
 for o in opts:
     print(o)
